@@ -51,7 +51,11 @@ def main():
     out = []
     for spec in specs:
         try:
-            out.append(reg.get_hash(build(spec, rng)))
+            v = build(spec, rng)
+            # the hash the scheduler keys arguments with, and the hash the backend records the
+            # same argument / result under (record_value: get_hash(data=serialize()))
+            iface = reg.get_value(v)
+            out.append(reg.get_hash(v) + "|" + iface.get_hash(data=iface.serialize()))
         except Exception as e:  # noqa
             out.append("ERR:" + type(e).__name__)
     json.dump(out, sys.stdout)
